@@ -218,6 +218,58 @@ func build(tier string) []*vkit.Scenario {
 		}
 	}
 
+	// ---- (a) with a user callback that panics: the job queue must go on behind it
+	ntP := func(m map[string]int) bool {
+		return m["callback_panics"] > 0 && m["messages_delivered_after_a_callback_panic"] > 0 && m["onclose_after_a_callback_panic"] > 0
+	}
+	pbase := []acfg{
+		{msgs: 3, bursts: []int{3}, panicMsg: 1, end: "fin"},                    // 0
+		{msgs: 3, bursts: []int{3}, panicMsg: 2, end: "fin"},                    // 1
+		{msgs: 3, bursts: []int{1, 2}, panicMsg: 1, end: "fin"},                 // 2
+		{msgs: 3, bursts: []int{1, 2}, panicMsg: 2, end: "rst"},                 // 3
+		{msgs: 3, bursts: []int{3}, panicMsg: 1, end: "hclose", closeAt: 2},     // 4
+		{msgs: 3, bursts: []int{1, 2}, panicMsg: 2, end: "hclose", closeAt: 2},  // 5
+		{msgs: 3, bursts: []int{3}, panicMsg: 2, end: "hclose", closeAt: 1},     // 6: Close, then panic, in one handler
+		{msgs: 3, bursts: []int{1, 2}, panicMsg: 1, end: "tclose"},              // 7
+		{msgs: 3, bursts: []int{3}, panicMsg: 2, end: "fin+tclose"},             // 8
+		{msgs: 2, frag: true, bursts: []int{1, 2}, panicMsg: 1, end: "fin"},     // 9
+		{msgs: 2, bursts: []int{2}, panicOpen: true, end: "fin"},                // 10
+		{msgs: 2, bursts: []int{1, 1}, panicOpen: true, end: "rst"},             // 11
+		{msgs: 2, bursts: []int{2}, panicOpen: true, end: "hclose", closeAt: 1}, // 12
+		{msgs: 2, bursts: []int{1, 1}, panicOpen: true, end: "tclose"},          // 13
+		{msgs: 3, bursts: []int{3}, panicOpen: true, panicMsg: 2, end: "fin"},   // 14: two panics
+	}
+	for _, m := range ekit.Modes {
+		for _, e := range []string{"go", "pool", "inline"} {
+			for bi, a := range pbase {
+				if !thorough {
+					switch {
+					case m == ekit.LT && e == "go":
+					case e == "go" && (bi == 0 || bi == 4 || bi == 10):
+					case m == ekit.LT && e == "pool" && (bi == 1 || bi == 5 || bi == 10):
+					case m == ekit.LT && e == "inline" && (bi == 0 || bi == 4 || bi == 10):
+					default:
+						continue
+					}
+				}
+				a.mode, a.exec = m, e
+				switch {
+				case e == "pool" || strings.Contains(a.end, "tclose"):
+					a.p = 1
+					if thorough {
+						a.p = 2
+					}
+				default:
+					a.p = 2
+					if thorough {
+						a.p = 3
+					}
+				}
+				add(a.name(), orderBody(a), a.p, ntP)
+			}
+		}
+	}
+
 	return out
 }
 
@@ -263,7 +315,7 @@ func main() {
 	settle()
 	vkit.Main(&vkit.Spec{
 		Property: "C14", Level: "model_checking",
-		Rule: "one scenario = family x configuration. (a) epoll mode x server executor (goroutine per call, default task pool, inline) x client frame script (0-3 messages, one optionally fragmented, 1-2 bursts; conforming client that waits for the 101 response, or a frame in the same burst as the upgrade request, or bursts sent without waiting) x ending (peer FIN, peer RST, Close from a message handler, from OnOpen, from another thread, FIN and Close together), optionally with the handler echoing through WriteMessage, on the real nbhttp engine + Upgrader.Upgrade scenario 1; (b) writer scripts (WriteMessage of 2F+1 bytes = 3 fragments, single frames, pings, a WriteFrame sequence) of 2-3 threads on a direct-mode server Conn; (c) the same writers on a Conn from Upgrade scenario 4 (unknown net.Conn type, read loop started by Upgrade) with the send queue x queue limit x failing k-th write x close source (none, peer EOF, Close + virtual close delay, a writer that closes) x inbound messages (with echo), and without the send queue; (c-deflate) the bounded send queue with permessage-deflate negotiated through the real Upgrade (EnableCompression + extension header) and a 16-byte frame limit: a writer queues 0-3 small messages and then one big message whose class and length decide how many frames it needs AFTER deflate - incompressible (deterministic pseudo-random bytes, verified when the scenario list is built to deflate to MORE bytes than the input) of every length kF-d, d in 0..6, which needs one frame more than its uncompressed length suggests for d<6, and compressible (shrinks below a frame boundary) - x queue limit leaving exactly k or k+1 (fc or fu) free slots x a follow-up message written after the queue drained, plus variants with a ping in the queue, a second writer, a racing close; (d) two writers on the engine-backed Conn x socket capacity (everything fits / 16 bytes) x no close / Close from another thread. Every interleaving within the preemption bound is executed on the real code. Non-trivial = the scenario delivered messages and ran OnClose (a) / put messages on the wire while a second writer was inside its call between two fragments of the first (b, d) / put messages on the wire or delivered inbound messages (c) / put RSV1 messages on the wire and had the follow-up message accepted (c-deflate)",
+		Rule: "one scenario = family x configuration. (a) epoll mode x server executor (goroutine per call, default task pool, inline) x client frame script (0-3 messages, one optionally fragmented, 1-2 bursts; conforming client that waits for the 101 response, or a frame in the same burst as the upgrade request, or bursts sent without waiting) x ending (peer FIN, peer RST, Close from a message handler, from OnOpen, from another thread, FIN and Close together), optionally with the handler echoing through WriteMessage, on the real nbhttp engine + Upgrader.Upgrade scenario 1; (a-panic) the same stack with a user callback that panics once (nbio.Conn.execute recovers the panic of a queued job): the handler of the first or of a middle message of three (also right after it called Close), or the OnOpen handler (which runs inside the upgrade request's job), or both, followed by more messages x ending (FIN, RST, Close from a later handler, Close from another thread, FIN and Close together); (b) writer scripts (WriteMessage of 2F+1 bytes = 3 fragments, single frames, pings, a WriteFrame sequence) of 2-3 threads on a direct-mode server Conn; (c) the same writers on a Conn from Upgrade scenario 4 (unknown net.Conn type, read loop started by Upgrade) with the send queue x queue limit x failing k-th write x close source (none, peer EOF, Close + virtual close delay, a writer that closes) x inbound messages (with echo), and without the send queue; (c-deflate) the bounded send queue with permessage-deflate negotiated through the real Upgrade (EnableCompression + extension header) and a 16-byte frame limit: a writer queues 0-3 small messages and then one big message whose class and length decide how many frames it needs AFTER deflate - incompressible (deterministic pseudo-random bytes, verified when the scenario list is built to deflate to MORE bytes than the input) of every length kF-d, d in 0..6, which needs one frame more than its uncompressed length suggests for d<6, and compressible (shrinks below a frame boundary) - x queue limit leaving exactly k or k+1 (fc or fu) free slots x a follow-up message written after the queue drained, plus variants with a ping in the queue, a second writer, a racing close; (d) two writers on the engine-backed Conn x socket capacity (everything fits / 16 bytes) x no close / Close from another thread. Every interleaving within the preemption bound is executed on the real code. Non-trivial = the scenario delivered messages and ran OnClose (a) / put messages on the wire while a second writer was inside its call between two fragments of the first (b, d) / put messages on the wire or delivered inbound messages (c) / put RSV1 messages on the wire and had the follow-up message accepted (c-deflate)",
 		Assumptions: []string{
 			"sequentially consistent interleavings at lock / atomic / channel / syscall / timer operations and at the harness points (fake conn Write/Read/Close, inside every callback); unsynchronised field accesses are interleaved only for the fields the overlay generator lists as racy (cmd/ovgen racyFields: websocket.Conn.closed, nbio.Conn.closed, ... - not nbio.Conn.session, which Upgrade swaps without a lock)",
 			"covered upgrade paths: scenario 1 (*nbio.Conn owned by the engine, all three epoll modes, IOModNonBlocking) and scenario 4 (unknown net.Conn type: blocking mode with own read loop and send queue). NOT covered: scenarios 2, 3 and the transfer-to-poller variants need a real *net.TCPConn / llib *tls.Conn on real descriptors and real goroutines, out of reach of the cooperative scheduler; their ordering rests on the same Execute / MustExecute queue, Engine.SyncCall and send-queue code explored here",
@@ -275,6 +327,7 @@ func main() {
 			"a client that sends frames in the same burst as its upgrade request violates RFC 6455 4.1; for it only the ordering clauses are judged (nbio hands those bytes to the HTTP parser and closes)",
 			"callback part: loss of inbound messages is C02/C12's subject; here delivered messages must be an in-order prefix of the wire",
 			"the close callback is owed once the connection has ended and Upgrade had succeeded",
+			"panicking callbacks: a callback that panics has ended; the callbacks behind it are owed exactly as if it had returned (order, one at a time, OnClose once after them); with a conforming client that sends everything and then FIN all its messages reach OnMessage (message-dropped-after-callback-panic). A panicking OnOpen leaves Upgrade by the panic: the connection counts as opened once OnOpen ran. nbio logs the recovered panic as 'conn execute failed: <value>': exactly the lines carrying the harness's own panic value, at most as many as it raised in that execution, are not failures; every other logged error still is. Log lines left by a preceding execution that the explorer cut short are discarded at the start of each execution",
 		},
 		Build: build, QuickBudget: 45 * time.Second, ThoroughBudget: 12 * time.Minute, MinNonTrivial: 40,
 	})
